@@ -17,8 +17,8 @@
                                       apply_edit (removals first), to_edit (roll-up)
 
    Granularity.  Every instruction below contains at most one mutating system call; the store is a
-   set of threads (open sequence, memtable thread, compaction thread, readers releasing a
-   snapshot), each with its own list of pending instructions, stepped in any order; the process
+   set of threads (open sequence, memtable thread, any number of compaction threads, readers
+   releasing a snapshot), each with its own list of pending instructions, stepped in any order; the process
    can die between any two steps (ECrash).  The verifier is a second process with its own pending
    instructions (EVStep / EVCrash).  What is atomic in the model and why:
      * Manifest::apply (an edit is durable or absent; C13's theorems);
@@ -191,10 +191,12 @@ Inductive instr :=
 
 Definition T_MAIN : N := 0.
 Definition T_FLUSH : N := 1.
-Definition T_COMPACT : N := 2.
-Definition T_READER (r : N) : N := 3 + r.
-Definition H_COMPACT : N := 0.      (* handle of perform_compaction's own snapshot; readers use 1 + r *)
-Definition H_READER (r : N) : N := 1 + r.
+(* any number of compaction threads (LsmTree::compaction_thread runs on several threads; the
+   j-th has its own program) and any number of readers *)
+Definition T_COMPACT (j : N) : N := 2 + 2 * j.
+Definition T_READER (r : N) : N := 3 + 2 * r.
+Definition H_COMPACT (j : N) : N := 2 * j.   (* handle of perform_compaction's own snapshot *)
+Definition H_READER (r : N) : N := 1 + 2 * r.
 
 Record proc := mkP {
   p_vers : list vobj;               (* every Arc<Version> created by this process *)
@@ -443,7 +445,11 @@ Definition vexec (i : vinstr) (ok : bool) (rest : list vinstr) (fs : fsys) : fsy
            end
   end.
 
-(* verify(): list_mani_fragments minus MANIFEST and minus the highest numbered fragment *)
+(* verify(): list_mani_fragments minus MANIFEST and minus the highest numbered fragment.
+   (The Rust builds [MANIFEST.a; ..; MANIFEST.z; MANIFEST] - the path of MANIFEST is pushed whether
+   or not the file exists - and pops twice; md_frags holds the numbered fragments only, so one
+   removelast is the same list, also when there are no numbered fragments: [MANIFEST] popped twice
+   is empty, and so is removelast [].) *)
 Definition v_entries (d : mdir) : list N := removelast (map fst (md_frags d)).
 
 (* ---------------------------------------------------------------- events *)
@@ -454,13 +460,16 @@ Inductive event :=
 | EStep (t : N)                   (* the next instruction of thread t *)
 | EWrite                          (* a write batch: one sequence number, one log append *)
 | EFlush (x : name) (roll : bool) (* the memtable thread rolls the memtable over and seals its log *)
-| ECompact (ins outs : list name) (roll hold : bool)
-                                  (* a merging compaction / garbage collection was selected;
+| ECompact (j : N) (ins outs : list name) (roll hold : bool)
+                                  (* compaction thread j selected a merging compaction / garbage
+                                     collection (other compactions may be in flight: their pins,
+                                     links and releases interleave; only the critical section
+                                     ICommit is under the tree's compaction mutex);
                                      hold: perform_compaction's own snapshot.  (Its SplitHint holds
                                      a second Arc of the same version for a shorter time, nested
                                      inside the snapshot's life; it only raises strong_count while
                                      the snapshot raises it anyway, so it is not a separate step.) *)
-| EMove                           (* a trivial move was selected *)
+| EMove (j : N)                   (* compaction thread j selected a trivial move *)
 | ETake (r : N)                   (* reader r is about to take a snapshot (its thread then steps) *)
 | EDrop (r : N)                   (* reader r is about to drop it *)
 | ECrash                          (* the store process dies *)
@@ -548,26 +557,26 @@ Definition step (s : sys) (ev : event) : sys :=
           else s
       | None => s
       end
-  | ECompact ins outs roll hold =>
+  | ECompact j ins outs roll hold =>
       match s_p s with
       | Some p =>
-          if p_ready p && negb (busy T_COMPACT p)
+          if p_ready p && negb (busy (T_COMPACT j) p)
              && negb (existsb (fun i => match i with
                                         | ICommit (Some e) _ => existsb (fun y => mem y outs) (e_add e)
                                         | _ => false end) (pc_get T_FLUSH p))
           then
-            let prog := (if hold then [ITake H_COMPACT] else [])
+            let prog := (if hold then [ITake (H_COMPACT j)] else [])
                         ++ map IPinLink outs ++ [ICommit (Some (mkEdit ins outs None)) roll]
                         ++ map IRelease outs
-                        ++ (if hold then [IDropSnap H_COMPACT] else []) in
-            upd_p s (Some (pc_set T_COMPACT prog p))
+                        ++ (if hold then [IDropSnap (H_COMPACT j)] else []) in
+            upd_p s (Some (pc_set (T_COMPACT j) prog p))
           else s
       | None => s
       end
-  | EMove =>
+  | EMove j =>
       match s_p s with
       | Some p =>
-          if p_ready p && negb (busy T_COMPACT p) then upd_p s (Some (pc_set T_COMPACT [ICommit None false] p)) else s
+          if p_ready p && negb (busy (T_COMPACT j) p) then upd_p s (Some (pc_set (T_COMPACT j) [ICommit None false] p)) else s
       | None => s
       end
   | ETake r =>
